@@ -560,6 +560,33 @@ def expand_ops(ops):
     return ops
 
 
+def _hist_obs(ev):
+    return [fp_obs(observe_event(ev, deep=False) + [ana_tobs(observe_analysis(ev))]), int(ev.total_events_thrown)]
+
+
+def run_history2(f, q):
+    """Two LIVE iterators over one opened reader (each f[a:b:s] or iter(f)) driven by one interleaved
+    history of [which, 'n' | 'i' | 'r'] ops ('r' = read every accessor of that iterator's current
+    event again)."""
+    _, fid, k, sp1, sp2, ops = q[:6]
+    its = []
+    for (whole, a, b, s) in (sp1, sp2):
+        its.append(iter(f) if whole else f[slice(a, b, s)])
+    out = []
+    for w, op in ops:
+        it = its[w]
+        if op == "n":
+            try:
+                out.append(_hist_obs(next(it)))
+            except StopIteration:
+                out.append("stop")
+        elif op == "i":
+            out.append("iter" if iter(it) is it else "iter-not-self")
+        else:
+            out.append(_hist_obs(it))
+    return ["ok", out]
+
+
 def run_history(f, q):
     """One EventIterator (f[a:b:s], or iter(f) when whole) driven by a history of next / iter / for /
     islice; every delivered event is observed (all accessors -> fingerprint, total_events_thrown).
@@ -584,6 +611,9 @@ def run_history(f, q):
             prim.append("i")
             r = iter(it)
             out.append("iter" if r is it else "iter-not-self")
+        elif op == "r":
+            prim.append("r")
+            out.append(obs(it))          # the event object IS the iterator: read all its accessors again
         else:
             kind, m = (op, None) if op == "F" else op
             src = it if kind in ("F", "f") else itertools.islice(it, m)
@@ -692,6 +722,8 @@ def run_query(q, paths, deep=False, readers=None):
             return ["ok", fps, ana]
         if kind == "hist":
             return run_history(f, q)
+        if kind == "hist2":
+            return run_history2(f, q)
         if kind == "wf":
             # HDF5Reader.get_waveforms(event_id, antenna_id, waveform_type): one waveform row of one event
             i, k, form = q[3], q[4], q[5]
@@ -730,8 +762,9 @@ def run_impl(case, scratch, tag="c", query_gen=None):
             rec = {"ctor": w["ctor"], "outcomes": w["outcomes"], "counters": w["counters"]}
             if w["ctor"] is None:
                 rec.update(raw_view(path))
-                ra = read_all(path)
+                ra = read_all(path, chunked=bool(case.get("_chunked")))
                 rec["analysis_obs"] = ra[3] if ra[0] == "ok" else None
+                rec["chunked"] = ra[4] if ra[0] == "ok" else []
                 rec["events"] = ra[:3]
                 if "analysis_expected" in w:
                     rec["analysis_expected"] = w["analysis_expected"]
@@ -754,8 +787,11 @@ def run_impl(case, scratch, tag="c", query_gen=None):
     return {"files": files, "queries": queries}
 
 
-def read_all(path):
-    """Sequential pass with the default slice_range, full (deep) observation."""
+def read_all(path, chunked=False):
+    """Sequential pass with the default slice_range, full (deep) observation: every accessor in
+    every call form, cross-checked on the event.  With chunked=True the same deep pass is repeated
+    with the file read in several chunks (slice_range 1 and one value in 2..n-1): result index 4 is
+    a list of [slice_range, events] (or [slice_range, "err", name])."""
     pyrex = _pyrex()
     try:
         with pyrex.File(path, "r") as f:
@@ -764,7 +800,15 @@ def read_all(path):
             for ev in f:
                 evs.append(observe_event(ev, deep=True))
                 ana.append(observe_analysis(ev))
-            return ["ok", n, evs, ana]
+        passes = []
+        if chunked and 2 <= n <= 16:
+            for k in sorted({1, 2 + (n * 7 + len(path)) % max(1, n - 2)} if n > 2 else {1}):
+                try:
+                    with pyrex.File(path, "r", slice_range=k) as f:
+                        passes.append([k, [observe_event(ev, deep=True) for ev in f]])
+                except Exception as e:
+                    passes.append([k, "err", type(e).__name__])
+        return ["ok", n, evs, ana, passes]
     except Exception as e:
         return ["err", type(e).__name__, traceback.format_exc()[-600:]]
 
@@ -872,7 +916,11 @@ def coq_query(q):
         prim = q[8] if len(q) > 8 else None
         assert prim is not None, "history query without its primitive op sequence"
         return "(QHist %d %s %s %s %s %s [%s])" % (fid, coq_oz(k), coq_bool(q[3]), coq_oz(q[4]), coq_oz(q[5]), coq_oz(q[6]),
-                                                  "; ".join("INext" if c == "n" else "IIter" for c in prim))
+                                                  "; ".join({"n": "INext", "i": "IIter", "r": "IRead"}[c] for c in prim))
+    if kind == "hist2":
+        sp = " ".join("%s %s %s %s" % (coq_bool(w), coq_oz(a), coq_oz(b), coq_oz(st)) for (w, a, b, st) in (q[3], q[4]))
+        return "(QHist2 %d %s %s [%s])" % (fid, coq_oz(k), sp, "; ".join(
+            "(%s, %s)" % (coq_bool(w == 0), {"n": "INext", "i": "IIter", "r": "IRead"}[op]) for w, op in q[5]))
     if kind == "wf":
         return "(QWf %d %s %s)" % (fid, zl(q[3]), zl(q[4]))
     if kind == "wfev":
@@ -1253,20 +1301,68 @@ def gen_histories(rng, fid, n, count):
             b = rng.randrange(a + 1, n + 1)
             s = rng.choice([None, 1, 2, 2, 3, 4])
             (a, b) = spellings(rng, a, b, n)[0]
-        ops = []
+        aa, bb, ss = (0, n, 1) if whole else (0 if a is None else (a + n if a < 0 else a), n if b is None else (b + n if b < 0 else b), s or 1)
+        nidx = len(range(aa, bb, ss))
+        ops, j, cur = [], 0, False
         for _ in range(rng.choice([2, 3, 4, 5, 7])):
+            rem = max(0, nidx - j)
             r = rng.random()
-            if r < 0.4:
+            if cur and r < 0.2:
+                ops.append("r")
+            elif r < 0.45:
                 ops.append("n")
+                cur = rem > 0
+                j += 1
             elif r < 0.6:
                 ops.append("i")
             elif r < 0.8:
-                ops.append(["f", rng.choice([1, 1, 2, 3])])
+                m = rng.choice([1, 1, 2, 3])
+                ops.append(["f", m])
+                j, cur = (j + m, True) if rem >= m else (j + rem + 1, False)
             elif r < 0.92:
-                ops.append(["s", rng.choice([0, 1, 2, 3])])
+                m = rng.choice([0, 1, 2, 3])
+                ops.append(["s", m])
+                if m:
+                    j, cur = (j + m, True) if rem >= m else (j + rem + 1, False)
             else:
                 ops.append("F")
+                j, cur = j + rem + 1, False
         qs.append(["hist", fid, k, whole, a, b, s, ops])
+    return qs
+
+
+def gen_histories2(rng, fid, n, count):
+    """Interleaved histories on TWO live iterators of one opened reader."""
+    qs = []
+    if n < 1:
+        return qs
+    for _ in range(count):
+        k = rng.choice([None] + list(range(1, n + 2)))
+        specs, nidx = [], []
+        for _ in range(2):
+            if rng.random() < 0.55:
+                specs.append([True, None, None, None])
+                nidx.append(n)
+            else:
+                a = rng.randrange(0, n)
+                b = rng.randrange(a + 1, n + 1)
+                s = rng.choice([None, 1, 2, 3])
+                nidx.append(len(range(a, b, s or 1)))
+                (a, b) = spellings(rng, a, b, n)[0]
+                specs.append([False, a, b, s])
+        ops, j, cur = [], [0, 0], [False, False]
+        for _ in range(rng.choice([3, 4, 6, 8, 10])):
+            w = rng.randrange(2)
+            r = rng.random()
+            if cur[w] and r < 0.35:
+                ops.append([w, "r"])
+            elif r < 0.9:
+                ops.append([w, "n"])
+                cur[w] = j[w] < nidx[w]
+                j[w] += 1
+            else:
+                ops.append([w, "i"])
+        qs.append(["hist2", fid, k, specs[0], specs[1], ops])
     return qs
 
 
@@ -1357,6 +1453,20 @@ def oracle_c11(fc, rec):
                 continue
             if g != w:
                 return "event %d table %s reads %s but the add recorded %s" % (i, t, json.dumps(g)[:200], json.dumps(w)[:200])
+    for pas in rec.get("chunked", []):
+        k = pas[0]
+        if pas[1] == "err":
+            return "reading the file with slice_range=%d raises %s" % (k, pas[2])
+        if len(pas[1]) != len(acc):
+            return "reading with slice_range=%d yields %d events, %d adds were accepted" % (k, len(pas[1]), len(acc))
+        for i, (a, got) in enumerate(zip(acc, pas[1])):
+            want = expected_event(fc["opts"], a, fc["det"])
+            for t, g, w in zip(TABLES, got, want):
+                if _nothing(g) and w == []:
+                    continue
+                if g != w:
+                    return "read in chunks (slice_range=%d): event %d table %s reads %s but the add recorded %s" % (
+                        k, i, t, json.dumps(g)[:200], json.dumps(w)[:200])
     if rec["thrown"] != sum(a.get("thrown", 1) for a in acc):
         return "total_thrown %d != sum over accepted adds %d" % (rec["thrown"], sum(a.get("thrown", 1) for a in acc))
     return ""
@@ -1411,23 +1521,42 @@ def oracle_query(q, got, recs, fcs):
     n = len(base)
     if kind == "len":
         return "" if got == ["ok", [n]] else "len(file) gives %s, sequential pass has %d events" % (got, n)
-    if kind == "hist":
-        whole, a, b, s = q[3], q[4], q[5], q[6]
-        if whole:
-            aa, bb, ss = 0, n, 1
-        else:
-            aa = 0 if a is None else (a + n if a < 0 else a)
-            bb = n if b is None else (b + n if b < 0 else b)
-            ss = 1 if s is None else s
-        if not (0 <= aa < bb <= n and ss >= 1 and (q[2] is None or q[2] >= 1)):
-            return ""
+    if kind in ("hist", "hist2"):
+        specs = [(q[3], q[4], q[5], q[6])] if kind == "hist" else [tuple(q[3]), tuple(q[4])]
+        idx_lists = []
+        for (whole, a, b, s) in specs:
+            if whole:
+                aa, bb, ss = 0, n, 1
+            else:
+                aa = 0 if a is None else (a + n if a < 0 else a)
+                bb = n if b is None else (b + n if b < 0 else b)
+                ss = 1 if s is None else s
+            if not (0 <= aa < bb <= n and ss >= 1 and (q[2] is None or q[2] >= 1)):
+                return ""
+            idx_lists.append(list(range(aa, bb, ss)))
         if got[0] != "ok":
             return "%s raises %s" % (describe_query(q), got[1])
-        idxs = list(range(aa, bb, ss))
         total = recs[fid]["thrown"]                 # attrs['total_thrown'] read with plain h5py
-        j = 0
+        if kind == "hist":
+            which = [0] * len(got[1])
+            reads = [c == "r" for c in (got[2] if len(got) > 2 else [])]
+        else:
+            which = [w for w, _ in q[5]]
+            reads = [op == "r" for _, op in q[5]]
+        pos_j = [0] * len(idx_lists)
         for pos, item in enumerate(got[1]):
+            idxs = idx_lists[which[pos]]
+            j = pos_j[which[pos]]
             if item == "iter":
+                continue
+            if pos < len(reads) and reads[pos]:
+                # re-reading the current event: must still be the event delivered by the last next()
+                i = idxs[j - 1]
+                want = [base[i], int((i + 1) / n * total)]
+                if item != want:
+                    where = [e for e, fpv in enumerate(base) if fpv == item[0]]
+                    return "%s: at call %d the event object of iterator %d (event %d, delivered earlier) now reads as %s, total_events_thrown %s (was %s)" % (
+                        describe_query(q), pos, which[pos], i, ("event %s" % where) if where else "data of no event", item[1], want[1])
                 continue
             if isinstance(item, str) and item != "stop":
                 return "%s: iter(iterator) does not return the iterator" % describe_query(q)
@@ -1444,7 +1573,7 @@ def oracle_query(q, got, recs, fcs):
                     return "%s: total_events_thrown at event %d is %d, int((%d+1)/%d*%d) = %d" % (describe_query(q), i, item[1], i, n, total, want[1])
             elif item != "stop":
                 return "%s: call %d delivers an event after the slice's %d events were delivered" % (describe_query(q), pos, len(idxs))
-            j += 1
+            pos_j[which[pos]] = j + 1
         return ""
     if kind in ("wf", "wfev"):
         evs = recs[fid]["events"][2]
@@ -1507,6 +1636,9 @@ def describe_query(q):
         return "f[%d] (slice_range=%s)" % (q[3], q[2])
     if q[0] == "slice":
         return "f[%s:%s:%s] (slice_range=%s)" % (q[3], q[4], q[5], q[2])
+    if q[0] == "hist2":
+        srcs = ["iter(f)" if sp[0] else "f[%s:%s:%s]" % (sp[1], sp[2], sp[3]) for sp in (q[3], q[4])]
+        return "two live iterators it0=%s, it1=%s (slice_range=%s) driven by %s" % (srcs[0], srcs[1], q[2], json.dumps(q[5]))
     if q[0] == "hist":
         src = "iter(f)" if q[3] else "f[%s:%s:%s]" % (q[4], q[5], q[6])
         return "%s (slice_range=%s) driven by %s" % (src, q[2], json.dumps(q[7]))
@@ -1575,7 +1707,7 @@ def compare(case, impl, model_str):
     for i, (q, x, y) in enumerate(zip(case.get("queries", []), ci_q, cm_q)):
         if q[0] == "gen":
             d = gen_diff(x, y)
-        elif q[0] == "hist":
+        elif q[0] in ("hist", "hist2"):
             d = hist_diff(q, x, y)
         else:
             d = diff(x, y, "query[%d]=%s" % (i, describe_query(q)))
@@ -1600,7 +1732,8 @@ PINNED = {"pyrex/io.py": ["HDF5Writer.add", "HDF5Writer._rollback", "HDF5Writer.
                           "EventIterator._get_event_data", "HDF5Reader.__getitem__", "HDF5Reader.__iter__",
                           "HDF5Reader.__len__", "HDF5Reader.open", "HDF5Reader.get_waveforms", "HDF5Reader._get_table_slice",
                           "EventIterator.get_waveforms", "EventIterator.get_triggered_components", "EventIterator.get_data",
-                          "EventIterator.__iter__", "EventIterator.total_events_thrown",
+                          "EventIterator.__iter__", "EventIterator.total_events_thrown", "EventIterator.get_rays_info",
+                          "EventIterator.get_particle_info", "EventIterator.triggered", "EventIterator.noise_bases",
                           "HDF5Writer.add_analysis_indices", "HDF5Writer.create_analysis_dataset"],
           "pyrex/generation.py": ["FileGenerator.__init__", "FileGenerator._load_events", "FileGenerator._next_file",
                                   "FileGenerator.create_event", "FileGenerator.count"]}
@@ -1719,6 +1852,18 @@ def shrink(case, fails, budget=30):
                 best = c
                 break
     # iterator histories: drop ops of the failing history one at a time
+    if len(best.get("queries", [])) == 1 and best["queries"][0][0] == "hist2":
+        changed = True
+        while changed and used[0] < budget:
+            changed = False
+            for oi in reversed(range(len(best["queries"][0][5]))):
+                if len(best["queries"][0][5]) <= 1:
+                    break
+                c = copy.deepcopy(best)
+                del c["queries"][0][5][oi]
+                if attempt(c):
+                    best = c
+                    changed = True
     if len(best.get("queries", [])) == 1 and best["queries"][0][0] == "hist":
         changed = True
         while changed and used[0] < budget:
@@ -1792,7 +1937,7 @@ def run_batch(ctx, cases, prop, stats, query_gen=None, with_model=True, label=""
                  sample={"opts": case["files"][0]["opts"], "det": case["files"][0]["det"],
                          "outcomes": impl["files"][0]["outcomes"][:12], "n_queries": len(case.get("queries", []))})
         for q in case.get("queries", []):
-            if q[0] == "hist":
+            if q[0] in ("hist", "hist2"):
                 ctx.case(key=("hist", i, json.dumps(q[:8])), nontrivial=True)
         for v in judge(case, impl, prop):
             problems.append((case, "property", v))
@@ -1852,7 +1997,7 @@ def report(ctx, prop, problems, fails_property, fails_corr):
                "; ".join(p[2][:300] for p in corr[:3]) or ctx.extra.get("input_distribution", {}).get("model_eval_error", ""))
     seen = 0
     for case, _, msg in propv[:(3 if ctx.thorough else 2)]:
-        small = shrink(case, fails_property, budget=(30 if ctx.thorough else 14))
+        small = shrink(case, fails_property, budget=(30 if ctx.thorough else 10))
         vs = fails_property(small) or [msg]
         ctx.fail(case_key(prop.lower(), small), vs[0], {"kind": "case", "prop": prop, "case": small, "what": vs[0]}, witness=True)
         seen += 1
